@@ -1,142 +1,3 @@
--- GENERATED by tools/gen/c18_params.py from src/io/parameter_reader.cpp, include/custom_structures.hpp, doc/parameter_file_doc.md, parameters_*.xml and the consuming sources — do not edit.
-import SimuVerif.Model.Params
-namespace Simu.Gen
-open Simu.Params
-
-/-- the get_string_value blocks of parameter_reader::read_numerical_parameters, in source order -/
-def numTable : List Entry := [
-  { tag := "input_mesh_file_path", field := "input_mesh_path_", kind := .str, ctype := "std::string", lower := false, inf := none, infValue := "",
-      checks := [] },
-  { tag := "output_mesh_folder_path", field := "output_folder_path_", kind := .str, ctype := "std::string", lower := false, inf := none, infValue := "",
-      checks := [] },
-  { tag := "damping_coefficient", field := "damping_coefficient_", kind := .dbl, ctype := "double", lower := false, inf := none, infValue := "",
-      checks := [.lt0 "damping_coefficient_"] },
-  { tag := "perform_initial_triangulation", field := "perform_initial_triangulation_", kind := .bool, ctype := "bool", lower := false, inf := none, infValue := "",
-      checks := [] },
-  { tag := "simulation_duration", field := "simulation_duration_", kind := .dbl, ctype := "double", lower := false, inf := none, infValue := "",
-      checks := [.le0 "simulation_duration_"] },
-  { tag := "time_step", field := "time_step_", kind := .dbl, ctype := "double", lower := false, inf := none, infValue := "",
-      checks := [.le0 "time_step_"] },
-  { tag := "sampling_period", field := "sampling_period_", kind := .dbl, ctype := "double", lower := false, inf := none, infValue := "",
-      checks := [.le0 "sampling_period_", .ltField "sampling_period_" "time_step_"] },
-  { tag := "min_edge_length", field := "min_edge_len_", kind := .dbl, ctype := "double", lower := false, inf := none, infValue := "",
-      checks := [.le0 "min_edge_len_"] },
-  { tag := "contact_cutoff_adhesion", field := "contact_cutoff_adhesion_", kind := .dbl, ctype := "double", lower := false, inf := none, infValue := "",
-      checks := [.le0 "contact_cutoff_adhesion_"] },
-  { tag := "contact_cutoff_repulsion", field := "contact_cutoff_repulsion_", kind := .dbl, ctype := "double", lower := false, inf := none, infValue := "",
-      checks := [.le0 "contact_cutoff_repulsion_"] },
-  { tag := "enable_edge_swap_operation", field := "enable_edge_swap_operation_", kind := .bool, ctype := "bool", lower := false, inf := none, infValue := "",
-      checks := [] } ]
-
-/-- the get_string_value blocks of parameter_reader::read_cell_type_parameters, in source order -/
-def cellTable : List Entry := [
-  { tag := "cell_type_name", field := "name_", kind := .str, ctype := "std::string", lower := false, inf := none, infValue := "",
-      checks := [] },
-  { tag := "global_cell_id", field := "global_type_id_", kind := .int, ctype := "short", lower := false, inf := none, infValue := "",
-      checks := [] },
-  { tag := "cell_mass_density", field := "mass_density_", kind := .dbl, ctype := "double", lower := false, inf := none, infValue := "",
-      checks := [] },
-  { tag := "cell_bulk_modulus", field := "bulk_modulus_", kind := .dbl, ctype := "double", lower := false, inf := none, infValue := "",
-      checks := [] },
-  { tag := "max_inner_pressure", field := "max_pressure_", kind := .dbl, ctype := "double", lower := true, inf := some "inf", infValue := "std::numeric_limits<double>::infinity()",
-      checks := [] },
-  { tag := "area_elasticity_modulus", field := "area_elasticity_modulus_", kind := .dbl, ctype := "double", lower := false, inf := none, infValue := "",
-      checks := [] },
-  { tag := "avg_division_volume", field := "avg_division_vol_", kind := .dbl, ctype := "double", lower := true, inf := some "inf", infValue := "std::numeric_limits<double>::infinity()",
-      checks := [] },
-  { tag := "std_division_volume", field := "std_division_vol_", kind := .dbl, ctype := "double", lower := false, inf := none, infValue := "",
-      checks := [] },
-  { tag := "avg_growth_rate", field := "avg_growth_rate_", kind := .dbl, ctype := "double", lower := false, inf := none, infValue := "",
-      checks := [] },
-  { tag := "std_growth_rate", field := "std_growth_rate_", kind := .dbl, ctype := "double", lower := false, inf := none, infValue := "",
-      checks := [] },
-  { tag := "target_isoperimetric_ratio", field := "target_isoperimetric_ratio_", kind := .dbl, ctype := "double", lower := false, inf := none, infValue := "",
-      checks := [.le0 "target_isoperimetric_ratio_"] },
-  { tag := "angle_regularization_factor", field := "angle_regularization_factor_", kind := .dbl, ctype := "double", lower := false, inf := none, infValue := "",
-      checks := [] },
-  { tag := "min_vol", field := "min_vol_", kind := .dbl, ctype := "double", lower := false, inf := none, infValue := "",
-      checks := [] },
-  { tag := "surface_coupling_max_curvature", field := "surface_coupling_max_curvature_", kind := .dbl, ctype := "double", lower := false, inf := none, infValue := "",
-      checks := [.lt0 "surface_coupling_max_curvature_"] } ]
-
-/-- the get_string_value blocks of parameter_reader::read_face_type_parameters, in source order -/
-def faceTable : List Entry := [
-  { tag := "face_type_name", field := "name_", kind := .str, ctype := "std::string", lower := false, inf := none, infValue := "",
-      checks := [] },
-  { tag := "global_face_id", field := "face_type_global_id_", kind := .int, ctype := "short", lower := false, inf := none, infValue := "",
-      checks := [.lt0 "face_type_global_id_"] },
-  { tag := "surface_tension", field := "surface_tension_", kind := .dbl, ctype := "double", lower := false, inf := none, infValue := "",
-      checks := [.lt0 "surface_tension_"] },
-  { tag := "adherence_strength", field := "adherence_strength_", kind := .dbl, ctype := "double", lower := false, inf := none, infValue := "",
-      checks := [.lt0 "adherence_strength_"] },
-  { tag := "repulsion_strength", field := "repulsion_strength_", kind := .dbl, ctype := "double", lower := false, inf := none, infValue := "",
-      checks := [.lt0 "repulsion_strength_"] },
-  { tag := "bending_modulus", field := "bending_modulus_", kind := .dbl, ctype := "double", lower := false, inf := none, infValue := "",
-      checks := [.lt0 "bending_modulus_"] } ]
-
-def paramTables : Tables :=
-  { numerical := numTable, cell := cellTable, face := faceTable,
-    cellLoopForward := true, faceLoopForward := true }
-
-/-- element names used by select_section / the loops of read_biomechanical_parameters -/
-def structureNames : List (String × String) := [("cell_elem", "cell_type"), ("cell_root", "cell_types"), ("empty_tests", "2"), ("face_elem", "face_type"), ("face_root", "face_types"), ("numerical_root", "numerical_parameters")]
-
-/-- members of the three structures that no XML tag is read into -/
-def unreadMembers : List (String × List String) := [("numerical", []), ("cell", ["additional_parameters_", "face_types_", "initial_pressure_"]), ("face", [])]
-
-/-- leaf tags shown in doc/parameter_file_doc.md -/
-def docTags : List String := ["adherence_strength", "area_elasticity_modulus", "avg_division_volume", "avg_growth_rate", "bending_modulus", "cell_bulk_modulus", "cell_mass_density", "cell_type_name", "contact_cutoff_adhesion", "contact_cutoff_repulsion", "damping_coefficient", "face_type_name", "global_cell_id", "global_face_id", "input_mesh_file_path", "max_inner_pressure", "min_vol", "output_mesh_folder_path", "repulsion_strength", "std_division_volume", "std_growth_rate", "surface_tension", "target_isoperimetric_ratio"]
-
-/-- tags whose documentation says `Set to INF` -/
-def docInfTags : List String := ["max_inner_pressure"]
-
-/-- (tag, sign of an example value) in the documentation: -1, 0, 1, 2 = INF -/
-def docExamples : List (String × Int) := [("adherence_strength", 1), ("area_elasticity_modulus", 1), ("avg_division_volume", 1), ("avg_growth_rate", 0), ("bending_modulus", 1), ("cell_bulk_modulus", 1), ("cell_mass_density", 1), ("contact_cutoff_adhesion", 1), ("contact_cutoff_repulsion", 1), ("damping_coefficient", 1), ("global_cell_id", 0), ("global_face_id", 0), ("global_face_id", 1), ("max_inner_pressure", 2), ("min_vol", 1), ("repulsion_strength", 1), ("std_division_volume", 0), ("std_growth_rate", 0), ("surface_tension", 1), ("target_isoperimetric_ratio", 1)]
-
-/-- (file, table, tag): a tag of a table that a shipped parameters_*.xml lacks in such a section -/
-def shippedMissing : List (String × String × String) := []
-
-/-- (tag, sign of a value) occurring in the shipped parameters_*.xml -/
-def shippedExamples : List (String × Int) := [("INMForce", 0), ("adherence_strength", 0), ("adherence_strength", 1), ("angle_regularization_factor", 0), ("area_elasticity_modulus", 0), ("area_elasticity_modulus", 1), ("avg_division_volume", 0), ("avg_division_volume", 1), ("avg_division_volume", 2), ("avg_growth_rate", 0), ("avg_growth_rate", 1), ("bending_modulus", 0), ("bending_modulus", 1), ("cell_bulk_modulus", 0), ("cell_bulk_modulus", 1), ("cell_mass_density", 1), ("contact_cutoff_adhesion", 1), ("contact_cutoff_repulsion", 1), ("damping_coefficient", 1), ("enable_edge_swap_operation", 0), ("global_cell_id", 0), ("global_cell_id", 1), ("global_face_id", 0), ("global_face_id", 1), ("max_inner_pressure", 1), ("max_inner_pressure", 2), ("min_edge_length", 1), ("min_vol", 1), ("perform_initial_triangulation", 0), ("perform_initial_triangulation", 1), ("repulsion_strength", 1), ("sampling_period", 1), ("simulation_duration", 1), ("std_division_volume", 0), ("std_division_volume", 1), ("std_division_volume", 2), ("std_growth_rate", 0), ("std_growth_rate", 1), ("surface_coupling_max_curvature", 1), ("surface_tension", 0), ("surface_tension", 1), ("target_isoperimetric_ratio", 1), ("time_step", 1)]
-
-/-- syntactic trace: (member, role, file, the expected use is present in the source) -/
-def wiring : List (String × String × String × Bool) := [
-  ("time_step_", "integrator step dt_", "include/time_integration/time_integration.hpp", true),
-  ("time_step_", "simulation clock advances by dt_", "src/time_integration/time_integration.cpp", true),
-  ("time_step_", "internal forces see the step", "src/solver.cpp", true),
-  ("damping_coefficient_", "integrator damping", "include/time_integration/time_integration.hpp", true),
-  ("simulation_duration_", "main loop runs while t < duration", "src/solver.cpp", true),
-  ("sampling_period_", "file number = floor(t / period) + 1", "src/solver.cpp", true),
-  ("min_edge_len_", "mesh refiner l_min, 3 l_min", "src/solver.cpp", true),
-  ("min_edge_len_", "initial triangulation l_min, 3 l_min", "src/io/simulation_initializer.cpp", true),
-  ("enable_edge_swap_operation_", "mesh refiner edge swap switch", "src/solver.cpp", true),
-  ("contact_cutoff_adhesion_", "adhesion cut-off of the contact model", "src/contact_models/contact_model_abstract.cpp", true),
-  ("contact_cutoff_repulsion_", "repulsion cut-off of the contact model", "src/contact_models/contact_model_abstract.cpp", true),
-  ("perform_initial_triangulation_", "initial triangulation switch", "src/io/simulation_initializer.cpp", true),
-  ("input_mesh_path_", "mesh file that is read", "src/io/simulation_initializer.cpp", true),
-  ("output_folder_path_", "folder that is created and written", "src/solver.cpp", true),
-  ("mass_density_", "cell mass = density * volume", "include/mesh/cell.hpp", true),
-  ("bulk_modulus_", "pressure = -K ln(V/V0)", "src/mesh/cell.cpp", true),
-  ("max_pressure_", "pressure cap", "src/mesh/cell.cpp", true),
-  ("area_elasticity_modulus_", "membrane elasticity factor", "src/mesh/cell.cpp", true),
-  ("avg_division_vol_", "division volume", "src/mesh/cell.cpp", true),
-  ("std_division_vol_", "division volume spread", "src/mesh/cell.cpp", true),
-  ("avg_growth_rate_", "growth rate", "src/mesh/cell.cpp", true),
-  ("std_growth_rate_", "growth rate spread", "src/mesh/cell.cpp", true),
-  ("min_vol_", "removal below the minimum volume", "include/mesh/cell.hpp", true),
-  ("angle_regularization_factor_", "angle regularisation force factor", "src/mesh/cell.cpp", true),
-  ("target_isoperimetric_ratio_", "target area = cbrt(ratio V^2)", "src/mesh/cell.cpp", true),
-  ("surface_coupling_max_curvature_", "curvature limit of the coupling", "src/contact_models/contact_node_node_via_coupling.cpp", true),
-  ("global_type_id_", "cell class chosen by the id", "src/io/simulation_initializer.cpp", true),
-  ("global_type_id_", "id written to the output mesh", "include/io/mesh_data.hpp", true),
-  ("name_", "cell type name reported", "src/io/simulation_initializer.cpp", true),
-  ("face_type_global_id_", "face id written to the output mesh", "include/io/mesh_data.hpp", true),
-  ("surface_tension_", "surface tension force factor", "src/mesh/cell.cpp", true),
-  ("adherence_strength_", "adhesion force amplitude", "src/contact_models/contact_node_face_via_spring.cpp", true),
-  ("repulsion_strength_", "repulsion force", "src/contact_models/contact_node_face_via_spring.cpp", true),
-  ("bending_modulus_", "bending stiffness", "src/mesh/cell.cpp", true) ]
-
-/-- number of reads of each member outside parameter_reader.cpp / custom_structures.hpp / python_bindings -/
-def consumers : List (String × Nat) := [("adherence_strength_", 4), ("angle_regularization_factor_", 4), ("area_elasticity_modulus_", 2), ("avg_division_vol_", 7), ("avg_growth_rate_", 6), ("bending_modulus_", 3), ("bulk_modulus_", 3), ("contact_cutoff_adhesion_", 4), ("contact_cutoff_repulsion_", 3), ("damping_coefficient_", 1), ("enable_edge_swap_operation_", 1), ("face_type_global_id_", 4), ("global_type_id_", 11), ("input_mesh_path_", 1), ("mass_density_", 1), ("max_pressure_", 2), ("min_edge_len_", 7), ("min_vol_", 3), ("name_", 1), ("output_folder_path_", 14), ("perform_initial_triangulation_", 2), ("repulsion_strength_", 6), ("sampling_period_", 1), ("simulation_duration_", 2), ("std_division_vol_", 6), ("std_growth_rate_", 6), ("surface_coupling_max_curvature_", 4), ("surface_tension_", 3), ("target_isoperimetric_ratio_", 2), ("time_step_", 2)]
-
-end Simu.Gen
+-- GENERATED: translation FAILED
+#eval (throw (IO.userError "translator failed for ParamTable: read_biomechanical_parameters: how the results are collected was not recognised") : IO Unit)
+translator_failed
